@@ -503,6 +503,41 @@ def rw_for_each_index(text: str) -> str:
     k += 1
 
 
+def rw_project_literal(text: str, name: str, keep: List[str], extra: str = '') -> str:
+  """R10l: the one struct literal `NAME { f: e, g, .. }` of a constructor is projected onto the fields the model keeps (same rule as R10 for the
+  struct itself): `field: expr,` / shorthand `field,` entries of other fields are dropped, and so is every `let field[: T] = ...;` statement that
+  only feeds a dropped shorthand entry.  `extra` (ghost fields of the model) is appended.  Kept entries are copied unchanged."""
+  toks = rsitems.lex(text)
+  s = rsitems.sig(toks)
+  hit = None
+  for n in range(len(s) - 1):
+    if toks[s[n]].kind == 'id' and toks[s[n]].text == name and toks[s[n + 1]].text == '{' and (n == 0 or toks[s[n - 1]].text not in ('struct', 'impl', 'for', '>')):
+      hit = n
+  if hit is None: raise Undecided('R10l: no `%s { .. }` literal' % name)
+  ko = s[hit + 1]; kc = rsitems.match_close(toks, ko)
+  # split the entries at depth-0 commas
+  entries, depth, start = [], 0, toks[ko].end
+  for k in range(ko + 1, kc):
+    t = toks[k]
+    if t.kind == 'p' and t.text in '([{': depth += 1
+    elif t.kind == 'p' and t.text in ')]}': depth -= 1
+    elif t.kind == 'p' and t.text == ',' and depth == 0:
+      entries.append(text[start:t.start]); start = t.end
+  if text[start:toks[kc].start].strip(): entries.append(text[start:toks[kc].start])
+  kept, dropped_short = [], []
+  for e in entries:
+    m = re.match(r'^\s*(\w+)\s*(:)?', e)
+    if not m: raise Undecided('R10l: cannot read literal entry %r' % e[:40])
+    if m.group(1) in keep: kept.append(e.strip())
+    elif not m.group(2): dropped_short.append(m.group(1))
+  lit = '%s {\n      %s,%s\n    }' % (name, ',\n      '.join(kept), ('\n      ' + extra) if extra else '')
+  out = text[:toks[s[hit]].start] + lit + text[toks[kc].end:]
+  for d in dropped_short:
+    out, n = re.subn(r'\n[ \t]*let\s+%s\b[^;]*;' % re.escape(d), '', out)
+    if n == 0: raise Undecided('R10l: no `let %s` for a dropped shorthand field' % d)
+  return out
+
+
 def rw_mut_self(text: str) -> str:
   """R1: `fn f(mut self, ...) { B }` -> `fn f(self, ...) { let mut this = self; B[self:=this] }`"""
   a = fn_anatomy(text)
@@ -989,6 +1024,7 @@ def build_unit(name: str, variant: Optional[str] = None, canary: bool = False) -
       if k in contracts: raise Undecided('unit %s: generated contract collides with a written one: %s' % (name, k))
     contracts.update(gen)
     gen_prelude = g.get('prelude', '')
+    gen_items = g.get('gen_items', [])
   for c in contracts.values():
     if c.effect:
       # O-06.7: on the completing path the handler's net effect on the operand stack is the ISA table's entry for its opcode
@@ -998,6 +1034,7 @@ def build_unit(name: str, variant: Optional[str] = None, canary: bool = False) -
         c.spec = sp.rstrip(',') + ',\n' + clause
       else:
         c.spec = sp + '\n  ensures\n' + clause
+  if 'generate' not in cfg: gen_items = []
   if canary:
     for c in contracts.values():
       if c.spec.strip() and not any('external_body' in at for at in c.attrs):
@@ -1062,6 +1099,7 @@ def build_unit(name: str, variant: Optional[str] = None, canary: bool = False) -
         elif rule == 'R3c': new = rw_eval_cfg(new, args.get('features', []))
         elif rule == 'R2': new = rw_slice_match(new)
         elif rule == 'R10': new = rw_project_struct(new, args['keep'])
+        elif rule == 'R10l': new = rw_project_literal(new, args['name'], args['keep'], args.get('extra', ''))
         elif rule == 'R14': new = rw_named_ops(new)
         elif rule == 'R8': new = rw_format(new)
         elif rule == 'R13i': new = rw_iter_loops(new)
@@ -1093,6 +1131,16 @@ def build_unit(name: str, variant: Optional[str] = None, canary: bool = False) -
       except ScanError as ex:
         raise Undecided('%s: %s' % (relfile, ex))
 
+  # generated items: functions a unit's generator derives mechanically from the source (one per source function, with the source location and
+  # hash of what it was derived from); text = complete Verus function, body_at = index just after the body's opening brace
+  for gi in gen_items:
+    t = gi['text']
+    if canary: t = t[:gi['body_at']] + ' proof { assert(false); } // vacuity canary\n' + t[gi['body_at']:]
+    chunks.append(('code', gi['path'], 'generated', t + '\n'))
+    items_meta.append({'path': gi['path'], 'file': gi['file'], 'line': gi['line'], 'sha256': gi['sha256'], 'kind': 'fn'})
+    fn_tags[gi['path']] = list(gi.get('tags', cfg.get('properties', [])))
+    contracts[gi['path']] = FnContract(path=gi['path'], tags=fn_tags[gi['path']], spec=gi.get('spec', 'generated'))
+    used_contracts.add(gi['path'])
   unused = set(contracts) - used_contracts
   if unused:
     raise Undecided('unit %s: contracts for items that were not extracted (lost anchor): %s' % (name, sorted(unused)))
